@@ -32,7 +32,8 @@ pub fn check(cx: &Cx, rep: &mut Report) {
         if !decl.entry.owning() {
             continue;
         }
-        let graceful = !af.failed() && matches!(af.task_end, Some((_, _, "done"))) && matches!(af.t_final(), Some((_, Some(_))));
+        // (L2 has no task-end events: there, graceful = the final stopped() returned and nothing failed)
+        let graceful = !af.failed() && (cx.mt || matches!(af.task_end, Some((_, _, "done")))) && matches!(af.t_final(), Some((_, Some(_)))) && (!cx.mt || af.incs.last().map(|i| i.t.is_some()).unwrap_or(false));
         let t_out = af.t_final().and_then(|t| t.1);
         let joins: Vec<&crate::index::OpRec> = ix.ops.iter().filter(|o| o.tag == af.tag && matches!(o.op, OpK::Join | OpK::JoinPark | OpK::Consume) && o.executed()).collect();
         let mut somes = 0;
